@@ -4,7 +4,7 @@ PATCH=$1; ID=$2; TIER=${3:-quick}
 cd /repo || exit 2
 if ! git diff --quiet; then echo "/repo has uncommitted changes"; exit 2; fi
 git apply "$PATCH" || { echo "patch does not apply"; exit 2; }
-cd /verif && ./check $ID $TIER; RC=$?
+cd /verif && VERIF_EVIDENCE_DIR=/tmp/seed-evidence ./check $ID $TIER; RC=$?
 git -C /repo checkout -- . 
 echo "seedrun: check $ID $TIER exit=$RC"
 exit $RC
